@@ -4,6 +4,7 @@ import (
 	"fmt"
 	"go/ast"
 	"go/token"
+	"go/types"
 	"strings"
 
 	"golang.org/x/tools/go/ssa"
@@ -14,9 +15,9 @@ import (
 
 func init() {
 	Register(&Spec{
-		ID: "C12",
+		ID:          "C12",
 		Explanation: "Decides structural necessary conditions of ordered, capped, exactly-once local delivery: (R1) lock balance in package server on every CFG path, guarded-by for the Server/answerQueue/structReturner/returnEmbargoer fields, no application code (Method.Impl, Returner, Shutdowner, ReleaseArgs) and no blocking under Server.mu; (R2) the delivery gate Server.starting, once set, is cleared and its channel closed on every path out of start; (R3) the statement that occupies a slot is reached from every acquisition of Server.mu only through a test of srv.drain, with a slot index obtained from nextID; (R4) the call goroutine clears its slot, wakes a waiting start and closes drain only when draining and empty; (R5) every function that receives a capnp.Recv consumes its Returner exactly once on every path, the call goroutine returns exactly once; (R6) the user's Shutdown runs only after the drain wait and a second Shutdown panics. Does NOT decide ordering or the concurrency cap as numeric invariants over timings.",
-		Run: runC12,
+		Run:         runC12,
 	})
 }
 
@@ -83,7 +84,17 @@ func ruleServerGate(ctx *Ctx, rule string) {
 			return false
 		}
 		id, ok := ast.Unparen(c.Args[0]).(*ast.Ident)
-		return ok && chanObj != nil && info.ObjectOf(id) == chanObj
+		if !ok || chanObj == nil {
+			return false
+		}
+		if info.ObjectOf(id) == chanObj {
+			return true
+		}
+		// inside a helper that did not exist on the reference tree the gate
+		// channel arrives as a parameter
+		co, _ := chanObj.(types.Object)
+		o := info.ObjectOf(id)
+		return co != nil && o != nil && newHelperParams(a)[o] && types.Identical(o.Type(), co.Type())
 	}
 	sets := u.Find(isSet)
 	if len(sets) == 0 {
@@ -381,7 +392,9 @@ func ruleServerShutdown(ctx *Ctx, rule string) {
 	}
 	info := u.Pkg.TypesInfo
 	isUser := func(m ast.Node) bool { return isCallNamed(info, m, "server.(Shutdowner).Shutdown") }
-	isDrained := func(m ast.Node) bool { return isRecvFromField(info, m, drain) || isBuiltinCall(info, m, "close", drain) }
+	isDrained := func(m ast.Node) bool {
+		return isRecvFromField(info, m, drain) || isBuiltinCall(info, m, "close", drain)
+	}
 	if len(u.Find(isUser)) == 0 {
 		r.Violation(rule, "Shutdown | user Shutdown is called", ctx.Prog.Rel(u.Pos), "Server.Shutdown no longer calls the Shutdowner")
 	}
